@@ -6,14 +6,34 @@ namespace PLS
 open Index
 
 /-- **C06 (an unparsable version changes nothing but the cached text and the memo version).** The
-    fixtures and usages of the last valid version stay in effect; the version-keyed memos are
-    invalidated, because what other files get through this one is read from its current text. -/
+    fixtures and usages of the last valid version stay in effect - and so do its imports: the
+    cached entry carries the record of the last version that parsed (`Index.carry`); the
+    version-keyed memos are invalidated. -/
 theorem C06_invalid_keeps (pfx : Path) (cl : Bool) (st : Index) (f : Path) (v : Version)
     (h : v.parsed = none) :
     analyze pfx cl st f v =
-      ({ st with cache := ainsert st.cache f v, epoch := st.epoch + 1, version := st.version + 1 }, false) := by
+      ({ st with cache := ainsert st.cache f (carry st f v), epoch := st.epoch + 1, version := st.version + 1 }, false) := by
   unfold analyze
   simp [h]
+
+/-- **C06 (the imports of the last valid version stay in effect, E19 repaired).** After an edit
+    that does not parse, the record the file's imports are read from is the one they were read
+    from before the edit - whether that was the previous text's own or one carried already. -/
+theorem C06_invalid_keeps_imports (pfx : Path) (cl : Bool) (st : Index) (f : Path) (v old : Version) (fr : FileRec)
+    (h : v.parsed = none) (hc : alookup st.cache f = some old) (hr : old.effRec = some fr) :
+    ((analyze pfx cl st f v).1.content f).bind Version.effRec = some fr := by
+  rw [C06_invalid_keeps pfx cl st f v h]
+  simp only [content, alookup_ainsert_self, Option.bind_some, carry, Version.effRec, h, hc]
+  simp only [Version.effRec] at hr
+  rw [hr]
+
+/-- … and for a document that is sent unparsable the first time (nothing cached for it), the file
+    as it is on disk stands in -/
+theorem C06_invalid_first_uses_disk (pfx : Path) (cl : Bool) (st : Index) (f : Path) (v : Version)
+    (h : v.parsed = none) (hc : alookup st.cache f = none) :
+    ((analyze pfx cl st f v).1.content f).bind Version.effRec = (alookup st.disk f).bind (fun d => d.parsed) := by
+  rw [C06_invalid_keeps pfx cl st f v h]
+  simp only [content, alookup_ainsert_self, Option.bind_some, carry, Version.effRec, h, hc, Option.bind_none]
 
 theorem analyze_eq (pfx : Path) (cl : Bool) (st : Index) (f : Path) (v : Version) (fr : FileRec)
     (hv : v.parsed = some fr) :
